@@ -139,6 +139,7 @@ func runC13(r *engine.Run) {
 		})
 	}
 	bandGetterHistory(r)
+	bandConstructionStability(r)
 	bandInstanceHistory(r)
 	r.Assume("numeric payload sizes are judged by the stated relations (M=N+8, N<=242, repeater<=non-repeater, monotone in SF at equal bandwidth), not cell by cell against the Regional Parameters (the property does not state it)")
 	r.Assume("the pair {M:0,N:0} is the library's encoding of 'not usable' under dwell-time and is exempt from M=N+8")
@@ -182,10 +183,10 @@ func runC13(r *engine.Run) {
 				}
 			}
 		}
-		// the same through the accessor (bands that compute RX1 have no table): every result
-		// for a defined uplink data-rate and an offset 0..7 is a defined data-rate
-		for dr := range s.DataRates {
-			for off := 0; off <= 7; off++ {
+		// the same through the accessor (bands that compute RX1 have no table): whatever it hands out
+		// without an error - for any uplink index -2..17 and offset -1..8 - is a defined data-rate
+		for dr := -2; dr <= 17; dr++ {
+			for off := -1; off <= 8; off++ {
 				c.Eval()
 				if v, err := b.GetRX1DataRateIndex(dr, off); err == nil && !defined(v) {
 					c.Fail(fmt.Sprintf("closure/%s/rx1-result-accessor", reg.Name), fmt.Sprintf("%v: GetRX1DataRateIndex(%d, %d) = %d is not a defined data-rate", cfg, dr, off, v), nil)
